@@ -47,3 +47,37 @@ func Reachable(entries ...*ssa.Function) map[*ssa.Function]bool {
 	}
 	return seen
 }
+
+// FieldsReadBy returns the names of the fields of struct type named that are
+// read (Field/FieldAddr followed by a load, or passed on) by the functions of
+// reach that belong to one of the packages pkgs (import paths).
+func FieldsReadBy(reach map[*ssa.Function]bool, typeName string, pkgs map[string]bool) map[string]bool {
+	out := map[string]bool{}
+	for fn := range reach {
+		if fn.Pkg == nil || !pkgs[fn.Pkg.Pkg.Path()] {
+			// closures carry their parent's package
+			p := fn
+			for p.Parent() != nil {
+				p = p.Parent()
+			}
+			if p.Pkg == nil || !pkgs[p.Pkg.Pkg.Path()] {
+				continue
+			}
+		}
+		for _, b := range fn.Blocks {
+			for _, in := range b.Instrs {
+				switch x := in.(type) {
+				case *ssa.FieldAddr:
+					if NamedTypeName(x.X.Type()) == typeName {
+						out[fieldName(x.X.Type(), x.Field)] = true
+					}
+				case *ssa.Field:
+					if NamedTypeName(x.X.Type()) == typeName {
+						out[fieldNameStruct(x.X.Type(), x.Field)] = true
+					}
+				}
+			}
+		}
+	}
+	return out
+}
